@@ -37,6 +37,7 @@ func init() {
 		// ---- time ----
 		"time.Now": func(x *Exec, st *State, a []Val, s ssa.Instruction) []Val {
 			t := st.fresh("now", SInt)
+			st.assume(Gt(t, TZero))
 			if st.lastNow != nil {
 				st.assume(Ge(t, *st.lastNow))
 				x.assumeNote("A-clock: time.Now is monotone within one handler call")
@@ -46,6 +47,7 @@ func init() {
 		},
 		"(time.Time).UnixNano": func(x *Exec, st *State, a []Val, s ssa.Instruction) []Val { return []Val{intVal(a[0].T())} },
 		"(time.Time).Sub":      func(x *Exec, st *State, a []Val, s ssa.Instruction) []Val { return []Val{intVal(Sub(a[0].T(), a[1].T()))} },
+		"(time.Time).IsZero":   func(x *Exec, st *State, a []Val, s ssa.Instruction) []Val { return []Val{boolVal(Eq(a[0].T(), TZero))} },
 		"(time.Time).Before":   func(x *Exec, st *State, a []Val, s ssa.Instruction) []Val { return []Val{boolVal(Lt(a[0].T(), a[1].T()))} },
 		"(time.Time).After":    func(x *Exec, st *State, a []Val, s ssa.Instruction) []Val { return []Val{boolVal(Gt(a[0].T(), a[1].T()))} },
 		"(time.Duration).Microseconds": func(x *Exec, st *State, a []Val, s ssa.Instruction) []Val {
@@ -173,6 +175,55 @@ func init() {
 			st.assume(Ge(r, RealLit("0.0")))
 			return []Val{{Typ: types.Typ[types.Float64], C: []Term{r}}}
 		},
+
+		// ---- protobuf / crypto (uninterpreted; byte slices are identified by their backing array) ----
+		"pb/proto.Marshal": func(x *Exec, st *State, a []Val, s ssa.Instruction) []Val {
+			x.assumeNote("A-crypto: proto.Marshal, Keccak256, Sign, Ecrecover, hexutil.Encode and bytes.Equal are uninterpreted functions of their arguments; byte slices are identified by their backing array (never mutated after creation)")
+			r := st.freshRef("marshaled")
+			src := a[0].T()
+			if a[0].Inner != nil && len(a[0].Inner.C) == 1 {
+				src = a[0].Inner.T() // the message pointer, not its interface box
+			}
+			st.assume(Eq(x.uf("srcmsg", []Sort{SInt}, SInt, r), src))
+			l := st.fresh("mlen", SInt)
+			st.assume(Ge(l, TZero))
+			e := st.symbolic(x.eng.errorType, "marshalerr")
+			return []Val{{Typ: types.NewSlice(types.Typ[types.Byte]), C: []Term{r, l}}, e}
+		},
+		"github.com/ethereum/go-ethereum/crypto.Keccak256Hash": func(x *Exec, st *State, a []Val, s ssa.Instruction) []Val {
+			vs, ok := x.variadicElems(st, a[0])
+			if !ok || len(vs) != 1 {
+				unsupp("Keccak256Hash with other than one literal argument")
+			}
+			h := x.uf("keccak", []Sort{SInt}, SInt, vs[0].C[0])
+			return []Val{{Typ: x.eng.lookupType("github.com/ethereum/go-ethereum/common", "Hash"), C: []Term{h}}}
+		},
+		"(github.com/ethereum/go-ethereum/common.Hash).Bytes": func(x *Exec, st *State, a []Val, s ssa.Instruction) []Val {
+			b := x.uf("hashbytes", []Sort{SInt}, SInt, a[0].T())
+			st.assume(Gt(b, TZero))
+			return []Val{{Typ: types.NewSlice(types.Typ[types.Byte]), C: []Term{b, IntLit(32)}}}
+		},
+		"github.com/ethereum/go-ethereum/crypto.Sign": func(x *Exec, st *State, a []Val, s ssa.Instruction) []Val {
+			sig := x.uf("sign", []Sort{SInt, SInt}, SInt, a[0].C[0], a[1].T())
+			st.assume(Ge(sig, TZero))
+			e := st.symbolic(x.eng.errorType, "signerr")
+			return []Val{{Typ: types.NewSlice(types.Typ[types.Byte]), C: []Term{sig, IntLit(65)}}, e}
+		},
+		"github.com/ethereum/go-ethereum/crypto.Ecrecover": func(x *Exec, st *State, a []Val, s ssa.Instruction) []Val {
+			ok := x.uf("ecrecover_ok", []Sort{SInt, SInt}, SBool, a[0].C[0], a[1].C[0])
+			e := st.symbolic(x.eng.errorType, "ecerr")
+			st.assume(Eq(Eq(e.T(), TZero), ok))
+			return []Val{st.symbolic(types.NewSlice(types.Typ[types.Byte]), "pubkey"), e}
+		},
+		"github.com/ethereum/go-ethereum/common/hexutil.Encode": func(x *Exec, st *State, a []Val, s ssa.Instruction) []Val {
+			r := x.uf("hexenc", []Sort{SInt}, SInt, a[0].C[0])
+			st.assume(Ge(r, TZero))
+			return []Val{{Typ: types.Typ[types.String], C: []Term{r}}}
+		},
+		"bytes.Equal": func(x *Exec, st *State, a []Val, s ssa.Instruction) []Val {
+			return []Val{boolVal(x.uf("bytes_eq", []Sort{SInt, SInt}, SBool, a[0].C[0], a[1].C[0]))}
+		},
+		"sort.Slice": sortSlice,
 
 		// ---- misc ----
 		"(github.com/google/uuid.UUID).String": func(x *Exec, st *State, a []Val, s ssa.Instruction) []Val {
@@ -465,4 +516,51 @@ func (x *Exec) countDelivery(st *State, responder Val, src Term, site ssa.Instru
 	arr := st.heapGet(name, ArrSort(ArrSort(SInt)))
 	inner := Select(arr, key)
 	st.heapSetAt(name, Store(arr, key, Store(inner, src, Add(Select(inner, src), IntLit(1)))), &key)
+}
+
+// sortSlice models sort.Slice(x, less) for the one shape used in the repository
+// (less = func(i, j) bool { return x[i] < x[j] }): the elements are permuted into ascending order.
+func sortSlice(x *Exec, st *State, a []Val, s ssa.Instruction) []Val {
+	sl := a[0]
+	if sl.Inner == nil {
+		unsupp("sort.Slice on a value of unknown dynamic type")
+	}
+	v := *sl.Inner
+	elem := sliceElem(v.Typ)
+	cs := comps(elem)
+	if len(cs) != 1 || !isAscendingLess(a[1]) {
+		unsupp("sort.Slice with a less function other than x[i] < x[j]")
+	}
+	x.assumeNote("A-sort: sort.Slice(x, func(i,j){return x[i] < x[j]}) permutes x into ascending order")
+	name := elemPrefix(elem) + cs[0].Suffix
+	arr := st.heapGet(name, ArrSort(ArrSort(cs[0].Sort)))
+	old := Select(arr, v.C[0])
+	neu := st.fresh("sorted", ArrSort(cs[0].Sort))
+	n := v.C[1]
+	perm := x.decls.Fun(fmt.Sprintf("perm!%d", x.nfresh), []Sort{SInt}, SInt)
+	inv := x.decls.Fun(fmt.Sprintf("perminv!%d", x.nfresh), []Sort{SInt}, SInt)
+	i, j := Term{"i!s", SInt}, Term{"j!s", SInt}
+	inR := func(t Term) Term { return And(Ge(t, TZero), Lt(t, n)) }
+	st.assume(Forall([]Term{i}, Implies(inR(i), And(inR(app(SInt, perm, i)), Eq(Select(neu, i), Select(old, app(SInt, perm, i)))))))
+	st.assume(Forall([]Term{j}, Implies(inR(j), And(inR(app(SInt, inv, j)), Eq(Select(neu, app(SInt, inv, j)), Select(old, j))))))
+	st.assume(Forall([]Term{i, j}, Implies(And(inR(i), inR(j), Le(i, j)), Le(Select(neu, i), Select(neu, j)))))
+	r := v.C[0]
+	st.heapSetAt(name, Store(arr, v.C[0], neu), &r)
+	return nil
+}
+
+func isAscendingLess(f Val) bool {
+	if f.Fn == nil || len(f.Fn.Fn.Blocks) != 1 {
+		return false
+	}
+	var cmp *ssa.BinOp
+	for _, in := range f.Fn.Fn.Blocks[0].Instrs {
+		if b, ok := in.(*ssa.BinOp); ok {
+			if cmp != nil {
+				return false
+			}
+			cmp = b
+		}
+	}
+	return cmp != nil && cmp.Op.String() == "<"
 }
